@@ -115,6 +115,25 @@ Definition is_no_proxy_host (hostname : str) (no_proxy : option (list str)) (env
                str_eqb hostname endDomain || ends_with (46 :: endDomain) hostname)
             (filter (starts_with [46]) l).
 
+(* the branch of get_proxy_info for a non-empty environment value:
+     proxy = urlparse(value)
+     auth = (unquote(proxy.username), unquote(proxy.password)) if proxy.username else None
+     return proxy.hostname, proxy.port, auth
+   unquote(None) raises TypeError (a user name without ":password") *)
+Definition proxy_of_value (value : str) : res (option str * option Z * option (str * str)) :=
+  do p <- urlparse value [];
+  let (user, pass) := userinfo_of (u_netloc p) in
+  do auth <- match user with
+             | Some (c :: u) =>
+                 match pass with
+                 | Some pw => Ok (Some (c :: u, pw))
+                 | None => Raise (Internal TypeErr)
+                 end
+             | _ => Ok None
+             end;
+  do port <- port_of (u_netloc p);
+  Ok (hostname_of (u_netloc p), port, auth).
+
 (* (proxy_host, proxy_port, proxy_auth) *)
 Definition get_proxy_info (hostname : str) (is_secure : bool)
     (proxy_host : option str) (proxy_port : Z) (proxy_auth : option (str * str))
@@ -131,20 +150,5 @@ Definition get_proxy_info (hostname : str) (is_secure : bool)
           if is_secure
           then remove_char 32 (env_get k_https_proxy (env_get k_HTTPS_PROXY [] env) env)
           else remove_char 32 (env_get k_http_proxy (env_get k_HTTP_PROXY [] env) env) in
-        if null value then Ok (None, Some 0, None)
-        else
-          do p <- urlparse value [];
-          let (user, pass) := userinfo_of (u_netloc p) in
-          (* (unquote(username), unquote(password)) if username else None;
-             unquote(None) raises TypeError *)
-          do auth <- match user with
-                     | Some (c :: u) =>
-                         match pass with
-                         | Some pw => Ok (Some (c :: u, pw))
-                         | None => Raise (Internal TypeErr)
-                         end
-                     | _ => Ok None
-                     end;
-          do port <- port_of (u_netloc p);
-          Ok (hostname_of (u_netloc p), port, auth)
+        if null value then Ok (None, Some 0, None) else proxy_of_value value
     end.
